@@ -118,7 +118,7 @@ int run_c07(verif::Args const& args, verif::Report& rep)
     rep.assume("TSan only sees synchronisation it intercepts and only the code that ran");
 
     bool const tsan = args.get("variant") == "tsan";
-    std::uint64_t ncases = args.budget(tsan ? 6 : 24, tsan ? 50 : 1200);
+    std::uint64_t ncases = args.budget(tsan ? 6 : 24, tsan ? 30 : 400);
     int repeats = (tsan && args.thorough()) ? 2 : 1;
     std::set<std::uint64_t> interleavings;
 
